@@ -142,14 +142,15 @@ def history_work(payload):
 def combos(tier, model):
     out = []
     wd = ["absent", "positive", "mixed"]
-    wp = ["absent", "positive"]
+    wp = ["absent", "positive", "mixed"]
     bgm = ["none", "unweighted", "weighted"] if model not in L.CFIT else ["none"]
     if tier == "thorough":
         trip = list(itertools.product(wd, wp, bgm))
     else:
-        # quick: a pairwise-covering subset of the 3 x 2 x 3 product
-        trip = [("absent", "absent", "none"), ("positive", "positive", "unweighted"), ("mixed", "absent", "weighted"),
-                ("mixed", "positive", "none"), ("absent", "positive", "weighted"), ("positive", "absent", "unweighted")]
+        # quick: a pairwise-covering subset (orthogonal array L9) of the 3 x 3 x 3 product
+        trip = [("absent", "absent", "none"), ("absent", "positive", "unweighted"), ("absent", "mixed", "weighted"),
+                ("positive", "absent", "unweighted"), ("positive", "positive", "weighted"), ("positive", "mixed", "none"),
+                ("mixed", "absent", "weighted"), ("mixed", "positive", "none"), ("mixed", "mixed", "unweighted")]
         trip = [(a, b, c if c in bgm else "none") for a, b, c in trip]
         trip = list(dict.fromkeys(trip))
     for a, b, c in trip:
@@ -166,7 +167,7 @@ def combos(tier, model):
 def run(tier, seed, only=None):
     rep = Report(
         PID, tier, seed, "exploration",
-        rule="models %s x weight patterns (data: absent/positive/mixed signs; phase space: absent/positive; background: none / unweighted (-w_bkg) / own weights) "
+        rule="models %s x weight patterns (data: absent/positive/mixed signs; phase space: absent/positive/mixed signs; background: none / unweighted (-w_bkg) / own weights) "
              "x batch sizes x groupings (1 or 2 simultaneous data sets with different w_bkg) x Gaussian constraint x parameter points, three value paths each; "
              "rescaling invariance; histories of get_fcn over 3 samples on one ConfigLoader. distinct = (model, combination, batch)" % (FAST + SLOW),
         assumptions=["the density itself is taken from the library (eager, unbatched pdf); its correctness is the business of C01-C05",
@@ -184,7 +185,7 @@ def run(tier, seed, only=None):
             for i in range(0, len(cs), k):
                 items.append({"model": m, "combos": cs[i:i + k], "batches": fb, "scaling": True})
         for m in SLOW:
-            cs = [("positive", "positive", "unweighted" if m not in L.CFIT else "none", 1, False, 1, 0.8), ("mixed", "absent", "none", 1, False, 1, 0.8)]
+            cs = [("positive", "mixed", "unweighted" if m not in L.CFIT else "none", 1, False, 1, 0.8), ("mixed", "absent", "none", 1, False, 1, 0.8)]
             if tier == "thorough":
                 cs.append(("positive", "positive", "weighted" if m not in L.CFIT else "none", 2, True, 1, 0.1))
             if tier == "quick":
